@@ -17,6 +17,7 @@ class PlanProfile:
         self.multi_run = 0.0
         self.p_abort = 0.5
         self.two_tokens = 0.0
+        self.p_clean = 0.0
         self.__dict__.update(kw)
 
 
@@ -112,6 +113,14 @@ def gen_plan(rng, prof):
         else:
             runs.append({"actions": first, "end": "normal"})
     run = {"actions": actions, "end": "normal", "resubmitted": resub}
+    if runs and getattr(prof, "p_clean", 0.0) and rng.random() < prof.p_clean:
+        # between the two runs the user removed the results of a job that others depend on; its rerun may fail
+        first = [a[1] for a in runs[0]["actions"]]
+        cands = [j for j in first if any(d["on"] == j for k in range(n) for d in jobs[k]["deps"])] or first
+        c = rng.choice(cands)
+        run["clean_before"] = [c]
+        if jobs[c]["codes"] == [0] and rng.random() < 0.6:
+            jobs[c]["codes"] = [0, rng.choice([1, 3])]
     plan = {"jobs": jobs, "tokens": tokens, "runs": runs + [run]}
     if tokens and rng.random() < prof.foreign:
         t0 = tokens[0]["total"]
@@ -135,6 +144,8 @@ def plan_features(plan):
             f.add("resubmit")
     if len(plan["runs"]) > 1:
         f.add("multirun:" + plan["runs"][0]["end"])
+    if any(r.get("clean_before") for r in plan["runs"]):
+        f.add("cleaned")
     if plan.get("foreign"):
         f.add("foreign" + (":twostep" if plan["foreign"].get("twostep") else ""))
     if any(a[0] == "dup" for r in plan["runs"] for a in r["actions"]):
